@@ -143,16 +143,14 @@ pub trait WalletBackend<'ck, C, K> where C: NodeClient + 'ck, K: Keychain + 'ck 
 
     fn store_tx(&self, uuid: &str, tx: &Transaction) -> (r: Result<(), Error>);
 
+    fn w2n_client(&mut self) -> (r: &mut C)
+        ensures final(self).state() == old(self).state();
+
     fn get_acct_path(&self, label: String) -> (r: Result<Option<AcctPathMapping>, Error>)
         ensures r matches Ok(v) ==> v == (if self.state().accounts.dom().contains(label@) { Some(self.state().accounts[label@]) } else { None::<AcctPathMapping> }),
             r matches Err(e) ==> store_err(e);
 }
 
-// A-store-errors: the storage layer reports storage-class errors only, never a protocol verdict
-pub open spec fn store_err(e: Error) -> bool {
-    !(e is TransactionExpired) && !(e is TransactionAlreadyReceived) && !(e is TransactionDoesntExist)
-    && !(e is TransactionNotCancellable) && !(e is NotEnoughFunds) && !(e is SlateState) && !(e is PaymentProof)
-}
 pub open spec fn spec_conf_height(s: WalletState) -> u64 {
     if s.conf_height.dom().contains(s.parent) { s.conf_height[s.parent] } else { 0 }
 }
@@ -165,7 +163,8 @@ pub trait WalletOutputBatch<K> where K: Keychain {
     fn save(&mut self, out: OutputData) -> (r: Result<(), Error>)
         ensures final(self).base() == old(self).base(), final(self).result() == old(self).result(),
             r is Ok ==> final(self).view() == (WalletState { outputs: old(self).view().outputs.insert(out_key(out), out), ..old(self).view() }),
-            r is Err ==> final(self).view() == old(self).view();
+            // S1 (checked by the extractor): callers propagate the error, so the batch is dropped uncommitted
+            r is Err ==> final(self).view() == old(self).view() && final(self).result() == final(self).base();
 
     fn get(&self, id: &Identifier, mmr_index: &Option<u64>) -> (r: Result<OutputData, Error>)
         ensures r matches Ok(o) ==> self.view().outputs.dom().contains((*id, *mmr_index)) && o == self.view().outputs[(*id, *mmr_index)],
@@ -177,17 +176,20 @@ pub trait WalletOutputBatch<K> where K: Keychain {
     fn delete(&mut self, id: &Identifier, mmr_index: &Option<u64>) -> (r: Result<(), Error>)
         ensures final(self).base() == old(self).base(), final(self).result() == old(self).result(),
             r is Ok ==> final(self).view() == (WalletState { outputs: old(self).view().outputs.remove((*id, *mmr_index)), ..old(self).view() }),
-            r is Err ==> final(self).view() == old(self).view();
+            // S1 (checked by the extractor): callers propagate the error, so the batch is dropped uncommitted
+            r is Err ==> final(self).view() == old(self).view() && final(self).result() == final(self).base();
 
     fn save_child_index(&mut self, parent_key_id: &Identifier, child_n: u32) -> (r: Result<(), Error>)
         ensures final(self).base() == old(self).base(), final(self).result() == old(self).result(),
             r is Ok ==> final(self).view() == (WalletState { child_idx: old(self).view().child_idx.insert(*parent_key_id, child_n), ..old(self).view() }),
-            r is Err ==> final(self).view() == old(self).view();
+            // S1 (checked by the extractor): callers propagate the error, so the batch is dropped uncommitted
+            r is Err ==> final(self).view() == old(self).view() && final(self).result() == final(self).base();
 
     fn save_last_confirmed_height(&mut self, parent_key_id: &Identifier, height: u64) -> (r: Result<(), Error>)
         ensures final(self).base() == old(self).base(), final(self).result() == old(self).result(),
             r is Ok ==> final(self).view() == (WalletState { conf_height: old(self).view().conf_height.insert(*parent_key_id, height), ..old(self).view() }),
-            r is Err ==> final(self).view() == old(self).view();
+            // S1 (checked by the extractor): callers propagate the error, so the batch is dropped uncommitted
+            r is Err ==> final(self).view() == old(self).view() && final(self).result() == final(self).base();
 
     fn next_tx_log_id(&mut self, parent_key_id: &Identifier) -> (r: Result<u32, Error>)
         ensures final(self).base() == old(self).base(), final(self).result() == old(self).result(),
@@ -196,7 +198,8 @@ pub trait WalletOutputBatch<K> where K: Keychain {
                 &&& id == n && n < u32::MAX
                 &&& final(self).view() == (WalletState { next_log: old(self).view().next_log.insert(*parent_key_id, (n + 1) as u32), ..old(self).view() })
             },
-            r is Err ==> final(self).view() == old(self).view();
+            // S1 (checked by the extractor): callers propagate the error, so the batch is dropped uncommitted
+            r is Err ==> final(self).view() == old(self).view() && final(self).result() == final(self).base();
 
     fn tx_log_iter(&self) -> (r: VIter<TxLogEntry>)
         ensures enumerates_log(r@, self.view().tx_log), r@ == seq_of_log(self.view().tx_log);
@@ -204,24 +207,28 @@ pub trait WalletOutputBatch<K> where K: Keychain {
     fn save_tx_log_entry(&mut self, t: TxLogEntry, parent_id: &Identifier) -> (r: Result<(), Error>)
         ensures final(self).base() == old(self).base(), final(self).result() == old(self).result(),
             r is Ok ==> final(self).view() == (WalletState { tx_log: old(self).view().tx_log.insert((*parent_id, t.id), t), ..old(self).view() }),
-            r is Err ==> final(self).view() == old(self).view();
+            // S1 (checked by the extractor): callers propagate the error, so the batch is dropped uncommitted
+            r is Err ==> final(self).view() == old(self).view() && final(self).result() == final(self).base();
 
     // LMDB: `out.lock(); self.save(out.clone())`
     fn lock_output(&mut self, out: &mut OutputData) -> (r: Result<(), Error>)
         ensures final(self).base() == old(self).base(), final(self).result() == old(self).result(),
             *final(out) == (OutputData { status: OutputStatus::Locked, ..*old(out) }),
             r is Ok ==> final(self).view() == (WalletState { outputs: old(self).view().outputs.insert(out_key(*final(out)), *final(out)), ..old(self).view() }),
-            r is Err ==> final(self).view() == old(self).view();
+            // S1 (checked by the extractor): callers propagate the error, so the batch is dropped uncommitted
+            r is Err ==> final(self).view() == old(self).view() && final(self).result() == final(self).base();
 
     fn save_private_context(&mut self, slate_id: &[u8], ctx: &Context) -> (r: Result<(), Error>)
         ensures final(self).base() == old(self).base(), final(self).result() == old(self).result(),
             r is Ok ==> final(self).view() == (WalletState { contexts: old(self).view().contexts.insert(slate_id@, *ctx), ..old(self).view() }),
-            r is Err ==> final(self).view() == old(self).view();
+            // S1 (checked by the extractor): callers propagate the error, so the batch is dropped uncommitted
+            r is Err ==> final(self).view() == old(self).view() && final(self).result() == final(self).base();
 
     fn delete_private_context(&mut self, slate_id: &[u8]) -> (r: Result<(), Error>)
         ensures final(self).base() == old(self).base(), final(self).result() == old(self).result(),
             r is Ok ==> final(self).view() == (WalletState { contexts: old(self).view().contexts.remove(slate_id@), ..old(self).view() }),
-            r is Err ==> final(self).view() == old(self).view();
+            // S1 (checked by the extractor): callers propagate the error, so the batch is dropped uncommitted
+            r is Err ==> final(self).view() == old(self).view() && final(self).result() == final(self).base();
 
     // one LMDB write transaction: all of the batch's writes or none (A-lmdb-atomic)
     fn commit(&self) -> (r: Result<(), Error>)
